@@ -5,6 +5,7 @@ import os
 import extract
 import endguard
 import p_multidim
+import p_search
 
 VERIF = os.path.dirname(os.path.dirname(os.path.abspath(__file__)))
 
@@ -76,4 +77,106 @@ PROPS['C14'] = {
     'not_decided': 'the "present => true" half rests on the inner index bracketing the lower bound (C02, numeric); not claimed here',
     'explanation': 'Clause-level static claim for C14 (the no-false-positive half and memory safety of the comparison), decided on the short-circuit CFG of contains() '
                    'for every instantiated configuration.',
+}
+
+
+# ------------------------------------------------------------------------------------------------ search contract family
+def _only(ctx, which):
+    return [ctx.cpgm] if which == 'wrapper' else ctx.units
+
+
+def rules_c01(ctx):
+    S = p_search
+    return (S.rule_range_form(ctx, 'pgm', ctx.units) + S.rule_agree_eps(ctx, 'pgm', ctx.units) + S.rule_clamp(ctx, 'pgm', ctx.units) +
+            S.rule_kind_pgm(ctx, ctx.units) + S.rule_keydiff_type(ctx, ctx.units))
+
+
+def rules_c02(ctx):
+    S = p_search
+    return S.rule_cap(ctx, 'pgm', ctx.units, fnames=('search', 'segment_for_key')) + [o for o in S.rule_range_form(ctx, 'pgm', ctx.units)]
+
+
+def rules_c07(ctx):
+    S = p_search
+    return [o for o in S.rule_agree_eps(ctx, 'pgm', ctx.units) if 'recursive' in o.arm] + S.rule_window_form(ctx, 'pgm', ctx.units)
+
+
+def rules_c08(ctx):
+    S = p_search
+    return (S.rule_range_form(ctx, 'compressed') + S.rule_agree_eps(ctx, 'compressed') + S.rule_clamp(ctx, 'compressed') + S.rule_cap(ctx, 'compressed') +
+            S.rule_kind_compressed(ctx) + S.rule_window_form(ctx, 'compressed') + S.rule_compressed_level(ctx))
+
+
+def rules_c09(ctx):
+    S = p_search
+    return (S.rule_range_form(ctx, 'bucketing') + S.rule_agree_eps(ctx, 'bucketing') + S.rule_clamp(ctx, 'bucketing') + S.rule_cap(ctx, 'bucketing') +
+            S.rule_kind_bucketing(ctx) + S.rule_bucket_agree(ctx))
+
+
+def rules_c10(ctx):
+    S = p_search
+    return (S.rule_range_form(ctx, 'eliasfano') + S.rule_agree_eps(ctx, 'eliasfano') + S.rule_clamp(ctx, 'eliasfano') + S.rule_cap(ctx, 'eliasfano') +
+            S.rule_rebase_agree(ctx))
+
+
+_SEARCH_ND = ('that every constraint point is within Epsilon of its segment, that float slopes and size_t(slope*double(k-key)) round inside the +2 slack, '
+              'chunk seams and the duplicate-run adjustment: value-level, no static argument in reach')
+
+PROPS['C01'] = {
+    'level': 'other', 'rules': rules_c01,
+    'decides': [
+        'RANGE-FORM: search() returns {P, P<=E?0:P-E, P+E+2>=n?n:P+E+2} with E the class\'s Epsilon (decided by a piecewise-linear normal form, any equivalent spelling accepted); hence lo<=pos, hi<=n, hi-lo<=2E+2 for every P',
+        'AGREE-EPS: the epsilon reaching OptimalPiecewiseLinearModel for level 0 is that same Epsilon (backward slice through build/build_level/make_segmentation_par/make_segmentation), also for MappedPGMIndex',
+        'CLAMP: the raw key only feeds std::max(first_key, key); routing and model evaluation receive the clamped key',
+        'KIND: every routing step of segment_for_key (EpsilonRecursive == 0, linear scan, binary search) ends in LAST_LE(key) and that result is returned',
+        'TYPE: the key difference in Segment::operator() is evaluated in an unsigned, floating or wider-than-K type for every key type',
+    ],
+    'not_decided': _SEARCH_ND,
+    'explanation': 'Clause-level static claim for C01: five structural necessary conditions of "the first occurrence lies in the returned range", decided for every instantiated configuration of PGMIndex/MappedPGMIndex.',
+}
+PROPS['C02'] = {
+    'level': 'other', 'rules': rules_c02,
+    'decides': [
+        'CAP: the position fed to the range arithmetic is std::min<size_t>(model of segment s at the clamped key, intercept of the successor of the same s), in search() and at every level of segment_for_key()',
+        'N-CAP (part of RANGE-FORM): the upper end is capped by field n',
+    ],
+    'not_decided': _SEARCH_ND + '; the closing point/sentinel clauses are decided under C17/C03',
+    'explanation': 'Clause-level static claim for C02: the cap that keeps gap queries from overshooting into the next segment and the cap of hi by n.',
+}
+PROPS['C07'] = {
+    'level': 'other', 'rules': rules_c07,
+    'decides': [
+        'AGREE-EPS-REC: upper levels are segmented with EpsilonRecursive (the call inside build()\'s level loop passes epsilon_recursive, whose source is the template parameter)',
+        'WINDOW-FORM: per level lo = level_begin + SUB(pos, EpsilonRecursive+1); in the binary-search arm hi = level_begin + ADD(pos, EpsilonRecursive, level_size) with level_size the size of the searched level: at most 2*EpsilonRecursive+3 segments are inspected in that arm',
+    ],
+    'not_decided': 'the bound for the linear-scan arm (the loop runs until found; its length is the numeric epsilon guarantee) and the per-level size bound',
+    'explanation': 'Clause-level static claim for C07: the two regressions the property names (wrong epsilon for an upper level, widened window) change these forms.',
+}
+PROPS['C08'] = {
+    'level': 'other', 'rules': rules_c08,
+    'decides': [
+        'RANGE-FORM / CLAMP / CAP / AGREE-EPS(+REC) / WINDOW-FORM on CompressedPGMIndex::search and its constructor (root estimate capped by root_range)',
+        'KIND: the segment index handed to the model derives from a LAST_LE position in all three arms (one-level, forward scan, binary search); binary searches use the clamped key; a discarded routing result is a violation',
+        'SENTINEL: every CompressedLevel key array ends with the sentinel on all construction paths; SUPPORT-ORDER: sel1 is bound to the final compressed_intercepts',
+    ],
+    'not_decided': 'that slope merging and intercept clamping keep every segment within Epsilon (numeric)',
+    'explanation': 'Clause-level static claim for C08: the PGMIndex clauses re-established on the compressed layout.',
+}
+PROPS['C09'] = {
+    'level': 'other', 'rules': rules_c09,
+    'decides': [
+        'RANGE-FORM incl. the two early exits ({0,0,0} only under key<first_key, {n,n,n} only under key>last_key), CLAMP (every other use of the key is behind both exits), CAP, AGREE-EPS, KIND (LAST_LE inside the bucket slice)',
+        'BUCKET-AGREE: bucket of a key computed with the same shift constant (power-of-two sizes) or the same field step (other sizes) at build and query time, on key-first_key; slice is [top_level[j], top_level[j+1])',
+    ],
+    'not_decided': 'table bounds and the overflow guard arithmetic of build_top_level (numeric)',
+    'explanation': 'Clause-level static claim for C09.',
+}
+PROPS['C10'] = {
+    'level': 'other', 'rules': rules_c10,
+    'decides': [
+        'RANGE-FORM, CLAMP, CAP (segments[r] vs segments[r+1]), AGREE-EPS',
+        'REBASE-AGREE: the constructor stores key-first_key for every segment except the sentinel, built after the rebase loop; search queries pred(k-first_key) and evaluates the model at origin+first_key',
+    ],
+    'not_decided': 'correctness of pred() over the high/low bit arrays (bit-level arithmetic on runtime values)',
+    'explanation': 'Clause-level static claim for C10.',
 }
